@@ -41,7 +41,7 @@ def generate(rng, prop, tier):
             d = models.draw(rng, max_states=4 if big else 3, max_controls=2, max_cal=2, max_sensors=3, min_sensors=0 if prop == "C12" else 1, symbol_keys=False)
         if bool(d["control"]) == want_ctl and bool(d["calibration"]) == want_cal:
             break
-    cfg = {"cse": rng.random() < 0.5, "innovation_filtering": rng.choice(K_MENU), "max_dt_sec": fx(rng.choice(MAXDT_MENU)),
+    cfg = {"cse": rng.random() < 0.5, "innovation_filtering": rng.choice(K_MENU + ([7.0 / 3.0, 2.3456789, 0.123456789] * 2 if prop == "C06" else [])), "max_dt_sec": fx(rng.choice(MAXDT_MENU)),
            "config_as_dict": rng.random() < 0.4}
     # how the options reach the generator (and what an EARLIER generation in the same process was given): the accepted
     # spellings are a Config, a dict (missing keys = documented defaults) and None (all defaults)
